@@ -447,7 +447,7 @@ impl<P: SingleObjectiveProblem> Selection<P> for ExponentialRank {
         let factor = (self.base - 1.0) / (self.base.powi(max_rank as i32) - 1.0);
         let weights: Vec<_> = ranking
             .iter()
-            .map(|i| factor * (self.base.powi((max_rank - i) as i32)))
+            .map(|i| factor * (self.base.powi((i - 1) as i32)))
             .collect();
         let selection = f::sample_population_weighted(population, &weights, self.num_selected, rng)
             .wrap_err("sampling from population failed")?;
